@@ -89,3 +89,47 @@ func VerifH06dStrictSNI() {
 	}
 	verifrt.Observe("sni", ran, status)
 }
+
+// VerifH06eServerGroup: the listener's site set is validated as a whole when the server is built
+// (NewServer): TLS and plaintext sites are never mixed, whichever comes first, and two sites of the
+// same host name (different paths) with different handshake settings are rejected instead of one of
+// them silently winning.
+func VerifH06eServerGroup() {
+	mk := func(path string, enabled bool, ca tls.ClientAuthType) *SiteConfig {
+		c := &caskettls.Config{Enabled: enabled, Hostname: "a", ClientAuth: ca}
+		if enabled {
+			caskettls.SetDefaultTLSParams(c)
+		}
+		return &SiteConfig{Addr: Address{Original: "a" + path, Host: "a", Path: path}, TLS: c}
+	}
+	n := verifrt.IntRange("nsites", 2, 3)
+	var group []*SiteConfig
+	anyTLS, anyPlain := false, false
+	var auths []tls.ClientAuthType
+	for i := 0; i < n; i++ {
+		enabled := verifrt.Bool("tls")
+		ca := tls.NoClientCert
+		if enabled && verifrt.Bool("clients-require") {
+			ca = tls.RequireAndVerifyClientCert
+		}
+		group = append(group, mk([]string{"", "/x", "/y"}[i], enabled, ca))
+		anyTLS = anyTLS || enabled
+		anyPlain = anyPlain || !enabled
+		if enabled {
+			auths = append(auths, ca)
+		}
+	}
+	_, err := NewServer(":443", group)
+	conflict := false
+	for _, a := range auths {
+		conflict = conflict || a != auths[0]
+	}
+	switch {
+	case anyTLS && anyPlain:
+		verifrt.Assert(err != nil, "tls-and-plaintext-never-mixed")
+	case conflict:
+		verifrt.Assert(err != nil, "conflicting-same-name-settings-rejected")
+	default:
+		verifrt.Assert(err == nil, "consistent-site-set-accepted")
+	}
+}
